@@ -13,10 +13,12 @@
 (* finite although the number of units is unbounded.                         *)
 EXTENDS AnnexBOps, AnnexBReader, TLC
 
-CONSTANTS Impl,        \* "asis" | "intended"  : end-of-stream path of NextNAL (AnnexBReader!AtEnd)
-          ReadImpl,    \* "asis": read() drops the bytes that stream.Read returns together with an error
+CONSTANTS Impl,        \* "current" | "pinned" : end-of-stream path of NextNAL (AnnexBReader!AtEnd);
+                       \* "current" is the code as it is, "pinned" the code before the repair 7b855c6
+          ReadImpl,    \* "asis": read() as it is: the bytes stream.Read returns together with an error are dropped
                        \* "intended": bytes returned with the error are kept (io.Reader contract)
-          EofWithData, \* TRUE: the source may hand out its final chunk together with io.EOF
+          EofWithData, \* TRUE: the source may hand out its final chunk together with io.EOF (outside the
+                       \* delivery C34 assumes; with ReadImpl = "asis" TLC shows the loss: AnnexB_asis_eof.cfg)
           MaxNalLen, MaxChunk, HdrSyms, BodySyms
 
 VARIABLES inc,         \* SEI inclusion (chosen once)
